@@ -24,7 +24,6 @@ import (
 	"fmt"
 	"math/rand"
 	"runtime"
-	"sort"
 	"strings"
 	"sync"
 	"sync/atomic"
@@ -61,14 +60,15 @@ type rpStep struct {
 }
 
 type rpCase struct {
-	Kind  string   `json:"kind"` // candidate | ordinary | replay | random | free
-	Cfg   rpCfg    `json:"cfg"`
-	Bad   []string `json:"bad,omitempty"`
-	Stale string   `json:"stale,omitempty"`
-	Sched []rpStep `json:"sched,omitempty"`
-	Seed  int64    `json:"seed,omitempty"`
-	Runs  int      `json:"runs,omitempty"`
-	Fam   string   `json:"fam,omitempty"`
+	Kind       string   `json:"kind"` // candidate | ordinary | replay | random | free
+	Cfg        rpCfg    `json:"cfg"`
+	Bad        []string `json:"bad,omitempty"`
+	Stale      string   `json:"stale,omitempty"`
+	Sched      []rpStep `json:"sched,omitempty"`
+	Seed       int64    `json:"seed,omitempty"`
+	Runs       int      `json:"runs,omitempty"`
+	Fam        string   `json:"fam,omitempty"`
+	ProbeEvery int      `json:"probe_every,omitempty"`
 }
 
 // resource-level event (P-level vocabulary)
@@ -102,6 +102,7 @@ type rpObs struct {
 	Causes   []string  `json:"causes,omitempty"`
 	Symptoms []string  `json:"symptoms,omitempty"`
 	Drift    string    `json:"drift,omitempty"`
+	Probe    string    `json:"probe,omitempty"`
 	Imposed  bool      `json:"imposed"`
 	Trace    string    `json:"trace,omitempty"`
 	Fam      string    `json:"fam,omitempty"`
@@ -151,6 +152,7 @@ type gproc struct {
 	role     string // client | sweep | tick | worker | setcap | closer
 	release  chan int
 	parked   string // label the process is parked at ("" while running)
+	last     string // label of the step being executed / executed last
 	finished bool
 	dead     bool // panicked
 	started  bool
@@ -191,6 +193,8 @@ type gsched struct {
 	executed    []rpStep
 	steps       []rpStepEv
 	stuck       bool
+	probing     bool
+	probed      string
 	aborted     int32
 }
 
@@ -285,7 +289,7 @@ func (s *gsched) spawn(p *gproc, body func()) {
 				s.mu.Lock()
 				msg := fmt.Sprint(r)
 				s.ev(rpEvent{Ev: "Panic", C: p.name, What: msg})
-				s.addSymptom(fmt.Sprintf("panic %s:%s %s", p.role, p.parked, rpPanicClass(msg)))
+				s.addSymptom(fmt.Sprintf("panic %s:%s %s", p.role, p.last, rpPanicClass(msg)))
 				s.mu.Unlock()
 				p.dead = true
 			}
@@ -465,10 +469,36 @@ func (s *gsched) wait1() bool {
 			}
 		}
 		return true
-	case <-time.After(rpWatchdog):
-		s.stuck = true
+	case <-time.After(s.patience()):
+		if !s.probing {
+			s.stuck = true
+		}
 		return false
 	}
+}
+
+// patience: a released step normally comes back within microseconds; the watchdog is generous.  A probe
+// (releasing a step the harness believes to block) is expected to block and gets a short wait.
+func (s *gsched) patience() time.Duration {
+	if s.probing {
+		return rpProbeWait
+	}
+	return rpWatchdog
+}
+
+var rpProbeWait = 80 * time.Millisecond
+
+// blockedByPrimitive: p is parked before a channel operation or lock acquisition that, by Go semantics,
+// blocks in the pool's current state.
+func (s *gsched) blockedByPrimitive(p *gproc) bool {
+	if p.finished || p.parked == "" {
+		return false
+	}
+	switch p.parked {
+	case "g2", "t1", "g7", "s3", "s4", "g10", "i4":
+		return !s.enabled(p, 0)
+	}
+	return false
 }
 
 func (s *gsched) lockFree() bool {
@@ -587,21 +617,52 @@ func (s *gsched) step(p *gproc, a int) bool {
 		s.steps = append(s.steps, rpStepEv{T: s.tid, P: p.name, L: label, A: a, O: rec.O})
 		return true
 	}
+	p.last = label
 	capBefore := rp.capacity.Get()
+	pendingShrink := ""
+	if label == "s2" {
+		for _, n := range []string{"worker", "setcap", "closer"} {
+			if n != p.name && s.procs[n].parked == "s3" {
+				pendingShrink = n
+			}
+		}
+	}
 	p.parked = ""
 	p.release <- 0
-	need := 1
-	if expectSpawn {
-		need = 2
-	}
-	for need > 0 {
-		if !s.wait1() {
-			return false
+	if p.role == "worker" && label == "w2" {
+		// the pool's own goroutine ends after <-scaleInTodo without passing another hook
+		deadline := time.Now().Add(rpWatchdog)
+		for len(rp.scaleInTodo) > 0 {
+			if time.Now().After(deadline) {
+				s.stuck = true
+				return false
+			}
+			runtime.Gosched()
 		}
-		need--
+		p.finished = true
+	} else {
+		need := 1
+		if expectSpawn {
+			need = 2
+		}
+		for need > 0 {
+			if !s.wait1() {
+				return false
+			}
+			need--
+		}
 	}
 	if rp.capacity.Get() != capBefore {
 		s.lastCapW = p.role + ":" + label
+		if label == "s2" && p.role == "worker" && rp.capacity.Get() < rp.baseCapacity.Get() {
+			s.addCause("scale-in-below-base by worker:s2")
+		} else if label == "s2" && pendingShrink != "" {
+			if rp.capacity.Get() == 0 {
+				s.addCause("close-during-pending-shrink by " + pendingShrink + ":s3")
+			} else if rp.capacity.Get() > capBefore {
+				s.addCause("grow-during-pending-shrink by " + pendingShrink + ":s3")
+			}
+		}
 	}
 	if label == "s5" && !p.dead {
 		s.closedSeen = true
@@ -689,11 +750,11 @@ type rpRun struct {
 }
 
 func rpSignature(symptom string, causes []string) string {
+	// the first root cause observed in the run: once it has happened the pool's slot accounting is
+	// corrupt and everything later is its consequence
 	c := "none"
 	if len(causes) > 0 {
-		cs := append([]string{}, causes...)
-		sort.Strings(cs)
-		c = strings.Join(cs, " + ")
+		c = causes[0]
 	}
 	return fmt.Sprintf("C24 %s | cause=%s", symptom, c)
 }
@@ -773,6 +834,11 @@ func runGated(c *rpCase, tid string, sched []rpStep, rng *rand.Rand) (*rpRun, *g
 			s.checkQuiescent()
 		}
 	} else {
+		pe := c.ProbeEvery
+		if pe <= 0 {
+			pe = 8
+		}
+		probeRun := rng.Intn(pe) == 0
 		for n := 0; n < 400; n++ {
 			type cand struct {
 				p *gproc
@@ -796,6 +862,10 @@ func runGated(c *rpCase, tid string, sched []rpStep, rng *rand.Rand) (*rpRun, *g
 					}
 				case "i0":
 					a = rng.Intn(2)
+				case "p2":
+					if p.putNil {
+						a = 1
+					}
 				case "t2":
 					if s.rp.capacity.Get() > s.rp.baseCapacity.Get() && rng.Intn(5) != 0 {
 						a = 1
@@ -803,6 +873,30 @@ func runGated(c *rpCase, tid string, sched []rpStep, rng *rand.Rand) (*rpRun, *g
 				}
 				if s.enabled(p, a) {
 					cs = append(cs, cand{p, a})
+				}
+			}
+			if probeRun && s.probed == "" && rng.Intn(2) == 0 {
+				// the code is expected to block here; a version that does not (a blocking operation turned
+				// non-blocking) continues, and the run goes on from a state the scheduler would otherwise never reach
+				var bl []*gproc
+				for _, name := range s.order {
+					if p := s.procs[name]; s.blockedByPrimitive(p) && p.role != "worker" {
+						bl = append(bl, p)
+					}
+				}
+				if len(bl) > 0 {
+					p := bl[rng.Intn(len(bl))]
+					s.probed = p.name + ":" + p.parked
+					s.probing = true
+					ok := s.step(p, 0)
+					s.probing = false
+					if !ok {
+						out.obs.Probe = s.probed + " blocks (as the specification says)"
+						break
+					}
+					out.obs.Probe = s.probed + " did NOT block"
+					s.checkQuiescent()
+					continue
 				}
 			}
 			if len(cs) == 0 {
@@ -818,7 +912,7 @@ func runGated(c *rpCase, tid string, sched []rpStep, rng *rand.Rand) (*rpRun, *g
 			}
 			s.checkQuiescent()
 		}
-		if !s.allFinished() && out.obs.Drift == "" {
+		if !s.allFinished() && out.obs.Drift == "" && !strings.HasSuffix(out.obs.Probe, "says)") {
 			var w []string
 			for _, name := range s.order {
 				if p := s.procs[name]; !p.finished && p.parked != "" {
@@ -1110,8 +1204,7 @@ func TestVerifResourcePool(t *testing.T) {
 			t.Fatal(err)
 		}
 	}
-	rpInstallHook()
-	defer func() { VerifStepHook = nil }()
+	rpInstallHook() // stays installed: goroutines of finished runs may still pass hook points
 	nruns, nsteps, nstuck, nskipped, nev := 0, 0, 0, 0, 0
 	emit := func(i int, r *rpRun, s *gsched) {
 		nruns++
